@@ -34,7 +34,7 @@
 From Coq Require Import List Arith Bool String ZArith Lia.
 From PV Require Import Base.Exn Base.Values Base.Ann Base.PyCall Model.CheckerCfg Model.Checker Model.PedanticCfg
   Model.Pedantic Model.PedanticEval Spec.Conforms Spec.PedanticSpec
-  Model.GenWrapper Proofs.PedanticBase Proofs.PyCallFacts Proofs.PedanticC03 Proofs.PedanticPos Proofs.PedanticGen Proofs.PedanticChecker Proofs.PedanticWitness Gen.Pedantic Gen.CheckerTables.
+  Model.GenWrapper Proofs.PedanticBase Proofs.PyCallFacts Proofs.PedanticC03 Proofs.PedanticPos Proofs.PedanticGen Proofs.PedanticChecker Proofs.PedanticWitness Proofs.PedanticMut Gen.Pedantic Gen.CheckerTables.
 Import ListNotations.
 Close Scope Z_scope.
 Open Scope list_scope.
@@ -535,3 +535,46 @@ Example C03_result_checked :
   /\ fst (run1 ctx0 f_plain (kwcall [] [(a_, VInt 1%Z)]) (returns vx)) = Raise PTypeCheckC
   /\ snd (run1 ctx0 f_plain (kwcall [] [(a_, VInt 1%Z)]) (returns vx)) <> [].
 Proof. repeat split; try reflexivity. vm_compute. discriminate. Qed.
+
+(* ---------------- the body changes an argument in place and hands that very object back ---------------- *)
+(* The verdict on what the body produces owes nothing to the verdict on what the caller supplied: a body that applies `change` to
+   the object bound to parameter n and returns it (Proofs/PedanticMut.v: returns_changed - for the caller and for the result
+   check the product is the object AS IT IS AFTER the change) is judged on that product, also when the object conformed to the
+   very same annotation when it came in. *)
+Theorem C03_changed_argument_guard_closed : forall ctx f c n change,
+  (forall b v, model_binding Gen.Pedantic.pedantic_cfg f c = Ok b -> arg_value f c b n = Some v -> c03_result_bad ctx f (change v) = true) ->
+  (forall b, model_binding Gen.Pedantic.pedantic_cfg f c = Ok b -> arg_value f c b n = None -> c03_result_bad ctx f VNone = true) ->
+  exists e, fst (run1 ctx f c (returns_changed f c n change)) = Raise e.
+Proof.
+  intros ctx f c n change Hv Hn. apply C03_result_guard_closed.
+  intros b cons v Hb Hbd. unfold returns_changed in Hbd.
+  destruct (arg_value f c b n) as [w|] eqn:E; inversion Hbd; subst; [eapply Hv|eapply Hn]; eassumption.
+Qed.
+Print Assumptions C03_changed_argument_guard_closed.
+
+(* def f(a: List[int]) -> List[int]: a.append('x'); return a - called f(a=[1]): the argument conforms (to the same annotation),
+   the body runs once on the caller's object, the caller gets PedanticTypeCheckException *)
+Example C03_changed_argument_checked :
+  let c := kwcall [] [(a_, VList [VInt 1%Z])] in
+  c04_args_ok ctx0 f_list_to_list c = true
+  /\ good ctx0 (f_ret f_list_to_list) (VList [VInt 1%Z]) = true
+  /\ run1 ctx0 f_list_to_list c (returns_changed f_list_to_list c a_ (append_to vx))
+     = (Raise PTypeCheckC, [([(a_, BOne (SKw a_))], [])]).
+Proof. repeat split; vm_compute; reflexivity. Qed.
+
+(* ---------------- the NAME of a parameter is not an input of the verdict ---------------- *)
+(* def f(<n>: int) -> int called f(<n>='x'), for EVERY name n other than self (context, func, call, value, key ... included:
+   the keyword travels through the **kwargs of every layer of the decorator) *)
+Theorem C03_parameter_name_irrelevant_closed : forall n bd,
+  n <> self_name ->
+  run1 ctx0 (func "f" [par n PosOrKw AInt None] plain_text) (kwcall [] [(n, vx)]) bd = (Raise PTypeCheckC, []).
+Proof.
+  intros n bd Hn. destruct n as [|m]; [exfalso; apply Hn; reflexivity|].
+  apply C03_args_guard_exact_closed_partial; try reflexivity.
+  - left. right; left. repeat split; reflexivity.
+  - intros _ H. exfalso. apply H. reflexivity.
+  - unfold c03_values_bad, c03_supplied_bad, twin_binding, py_bind. cbn. rewrite ?Nat.eqb_refl. cbn. rewrite ?Nat.eqb_refl. reflexivity.
+  - intros; discriminate.
+  - intros inst Hi. vm_compute in Hi. inversion Hi. reflexivity.
+Qed.
+Print Assumptions C03_parameter_name_irrelevant_closed.
